@@ -12,7 +12,8 @@
   Share proofs: the rule of the spec is `specShareVerify` = `specShareVerifyCore` ∧ inner-node clause.
   `shareproof_verify_sound_partial` proves the CORE (counts, presence, row-proof rule, share groups bound to the square, and
   NO ABORT: a panic is a failure of the property) with the NMT binding DERIVED from the multi-leaf range-proof soundness of
-  `Proofs/NmtMultiSound.lean`; `shareproof_verify_sound_of_nmtBinds_partial` is the older form that takes the binding as a
+  `Proofs/NmtMultiSound.lean`, under collision-freeness of the NMT hash RELATIVE to the explicit finite list of inputs it is
+  applied to (`NmtMulti.shareVerifyInputs`; `HashOKOn`, satisfiable — the earlier `HashOK` was contradictory, audit X1); `shareproof_verify_sound_of_nmtBinds_partial` is the older form that takes the binding as a
   hypothesis.  The inner-node clause is evaluated on the implementation by the driver but not proved of the model
   (`ShareProofFullStatement` shows the full statement).  `shareproof_verifyOrig_counterexample`: the original code aborts.
 
@@ -22,6 +23,7 @@
 import Lumina.Proofs.C13Share
 import Lumina.Proofs.NmtMultiShare
 import Lumina.Proofs.NmtMultiShareBuild
+import Lumina.Proofs.NmtMultiToy
 import Lumina.Props.C04   -- only for the concrete square of the non-vacuity example
 
 namespace Lumina.Props.C13
@@ -323,34 +325,48 @@ theorem shareproof_verify_sound_of_nmtBinds_partial [DecidableEq D] (H : HashFns
 open Lumina.Model.ShareProof (ShareProof) in
 open Lumina.Model.Eds (Eds Dah) in
 /-- **share proofs fail if any proven root or share is altered or the counts do not match, and never abort** — the
-    CORE of the rule (`specShareVerifyCore`; PARTIAL: the inner-node clause of `specShareVerify` is not proved of the
-    model, see `ShareProofFullStatement`), at full strength otherwise: for every extended square `e` of power-of-two width with the quadrant parity flags and shares of at least
-    29 bytes (what `ExtendedDataSquare::new` establishes: `SquareShape`), its DAH, every share proof and every data
-    root, `specShareVerify` holds of the model's verdict, with `sq` = the raw square and `all` = the DAH's row and
-    column roots.  The NMT binding is derived (`NmtMulti.nmtBinds_of_eds`, from the multi-leaf range-proof soundness
-    `NmtMulti.checkRangeProof_multi_sound`), not assumed.
-    Hypotheses: collision-free DAH tree hash (`InnerInj`, `LeafInj`) and NMT hash (`HashOK h`); Rust type invariants:
-    merkle-proof totals ≤ 2^63 (i64 wire type), the share proof's namespace is 29 bytes, its NMT siblings are 90-byte
-    namespaced hashes.
+    CORE of the rule (`specShareVerifyCore`; PARTIAL only in that the inner-node clause of `specShareVerify` is not proved
+    of the model, see `ShareProofFullStatement`), at full strength otherwise: for every extended square `e` of
+    power-of-two width with the quadrant parity flags and shares of at least 29 bytes (what `ExtendedDataSquare::new`
+    establishes: `SquareShape`), its DAH, every share proof and every data root, `specShareVerifyCore` holds of the
+    model's verdict, with `sq` = the raw square and `all` = the DAH's row and column roots.  The NMT binding is derived
+    (`NmtMulti.nmtBinds_of_eds_on`, from the multi-leaf range-proof soundness `NmtMulti.checkRangeProof_multi_sound_on`).
+    Hash hypotheses (both satisfiable, see the non-vacuity example at the end of the file): collision-free DAH tree
+    hash (`InnerInj`, `LeafInj` over an abstract digest type) and `HashOKOn h S`: the NMT hash has 32-byte output and NO
+    COLLISION AMONG THE INPUTS `S = NmtMulti.shareVerifyInputs h e ns data proofs` — the explicit finite list of byte
+    strings hashed when the DAH of `e` is computed (`Eds.edsInputs`: every leaf and inner node of every row and column
+    tree, and the empty string) and when this proof is verified (`NmtMulti.shareLoopInputs`: the leaf preimages of the
+    presented shares under the claimed namespace and the `hash_nodes` inputs of each `check_range_proof`).
+    Rust type invariants as hypotheses: merkle-proof totals ≤ 2^63 (i64 wire type), 29-byte namespace, 90-byte NMT
+    siblings and row roots, `u32` range bounds.
     What is NOT claimed because nmt-rs does not bind it: ranges with `end > width` (the spec conditions on
     `end ≤ w`): a range proof carries no tree size, the verifier derives the shape from `(start, #siblings)`, so a
     range claimed beyond the real width can be accepted for shares that sit elsewhere (see `design_notes/C13.md`). -/
 theorem shareproof_verify_sound_partial [DecidableEq D] (H : HashFns D) (h : Lumina.Model.Nmt.HashFn)
-    (hinj : InnerInj H) (hleaf : LeafInj H) (hk : Lumina.Proofs.Nmt.HashOK h)
+    (hinj : InnerInj H) (hleaf : LeafInj H)
     (e : Eds) (k : Nat) (hsq : Lumina.Proofs.NsData.SquareShape e) (hw : e.width = 2 ^ k)
     (dah : Dah) (hd : Dah.ofEds h e = .ok dah)
-    (sp : ShareProof D) (rt : Option D) (hb : ∀ p ∈ sp.rowProof.proofs, p.total ≤ 2 ^ 63)
+    (sp : ShareProof D) (rt : Option D)
+    (hk : Lumina.Proofs.Nmt.HashOKOn h
+      (fun y => y ∈ Lumina.Proofs.NmtMulti.shareVerifyInputs h e sp.namespaceId sp.data sp.shareProofs))
+    (hb : ∀ p ∈ sp.rowProof.proofs, p.total ≤ 2 ^ 63)
     (hns : sp.namespaceId.length = 29) (hwf : ∀ p ∈ sp.shareProofs, ∀ x ∈ p.siblings, x.WF)
     (hr90 : ∀ r ∈ sp.rowProof.rowRoots, r.length = 90) (hu32 : ∀ p ∈ sp.shareProofs, Lumina.Proofs.Decoders.U32 p) :
     specShareVerifyCore H e.width (Lumina.Proofs.Sample.rawSquare e) dah.allRootsBytes (shareObsOf sp) rt
       (shareResOf (Lumina.Model.ShareProof.verify H h sp rt)) = true :=
   shareproof_verify_sound_of_slices H h hinj hleaf e.width _ _ sp rt hb hr90 hu32
     (fun hl hbind htot h1 hlen =>
-      Lumina.Proofs.NmtMulti.slicesBound_of_ok' H h e.width _ _ (Lumina.Proofs.NmtMulti.nmtBinds_of_eds hk hsq hw hd)
-        sp.namespaceId hns sp.shareProofs sp.rowProof.rowRoots sp.rowProof.proofs sp.data hwf hl hbind htot h1 hlen)
+      Lumina.Proofs.NmtMulti.slicesBound_of_ok_on H h _ e.width _ _
+        (Lumina.Proofs.NmtMulti.nmtBinds_of_eds_on hk hsq hw hd
+          (fun y hy => List.mem_append_left _ hy))
+        sp.namespaceId hns sp.shareProofs sp.rowProof.rowRoots sp.rowProof.proofs sp.data hwf
+        (fun y hy => List.mem_append_right _ hy) hl hbind htot h1 hlen)
 
-/-- the same in reduction form for the NMT hash (satisfiable by real hashes): the property holds, or the NMT hash has
-    an explicit collision -/
+/-- **reduction form with an explicit collision**: for ANY NMT hash with 32-byte output (e.g. SHA-256), either the
+    core of the share-proof rule holds of the verdict, or the hash has a collision `x ≠ y`, `h x = h y` with BOTH `x`
+    and `y` in the explicit finite list `NmtMulti.shareVerifyInputs` of inputs hashed by the DAH computation of the square
+    and by the verification of this very proof.  (The right disjunct is false of a concrete hash unless such a collision
+    really occurs among those few inputs — unlike "`h` is not injective", which holds of every 32-byte function.) -/
 theorem shareproof_verify_sound_or_collision_partial [DecidableEq D] (H : HashFns D) (h : Lumina.Model.Nmt.HashFn)
     (hinj : InnerInj H) (hleaf : LeafInj H) (hl : Lumina.Proofs.Nmt.HashLen h)
     (e : Lumina.Model.Eds.Eds) (k : Nat) (hsq : Lumina.Proofs.NsData.SquareShape e) (hw : e.width = 2 ^ k)
@@ -359,21 +375,32 @@ theorem shareproof_verify_sound_or_collision_partial [DecidableEq D] (H : HashFn
     (hns : sp.namespaceId.length = 29) (hwf : ∀ p ∈ sp.shareProofs, ∀ x ∈ p.siblings, x.WF)
     (hr90 : ∀ r ∈ sp.rowProof.rowRoots, r.length = 90) (hu32 : ∀ p ∈ sp.shareProofs, Lumina.Proofs.Decoders.U32 p) :
     specShareVerifyCore H e.width (Lumina.Proofs.Sample.rawSquare e) dah.allRootsBytes (shareObsOf sp) rt
-      (shareResOf (Lumina.Model.ShareProof.verify H h sp rt)) = true ∨ ∃ x y, x ≠ y ∧ h x = h y := by
-  by_cases hi : Function.Injective h
-  · exact Or.inl (shareproof_verify_sound_partial H h hinj hleaf ⟨hi, hl⟩ e k hsq hw dah hd sp rt hb hns hwf hr90 hu32)
-  · right
-    unfold Function.Injective at hi
-    have : ∃ x y, h x = h y ∧ x ≠ y := by
-      apply Classical.byContradiction
-      intro hn
-      apply hi
-      intro a b hab
-      apply Classical.byContradiction
-      intro hne
-      exact hn ⟨a, b, hab, hne⟩
-    obtain ⟨x, y, h1, h2⟩ := this
-    exact ⟨x, y, h2, h1⟩
+      (shareResOf (Lumina.Model.ShareProof.verify H h sp rt)) = true ∨
+    Lumina.Proofs.Nmt.CollisionIn h
+      (fun y => y ∈ Lumina.Proofs.NmtMulti.shareVerifyInputs h e sp.namespaceId sp.data sp.shareProofs) := by
+  rcases Lumina.Proofs.Nmt.noCollOn_or_collision h
+      (fun y => y ∈ Lumina.Proofs.NmtMulti.shareVerifyInputs h e sp.namespaceId sp.data sp.shareProofs) with hn | hc
+  · exact Or.inl (shareproof_verify_sound_partial H h hinj hleaf e k hsq hw dah hd sp rt ⟨hn, hl⟩ hb hns hwf hr90 hu32)
+  · exact Or.inr hc
+
+/-- the contrapositive reading: a share proof that is ACCEPTED although its shares are not the claimed in-width range of
+    the proven axis under the claimed namespace (or any other violation of the core rule) yields an explicit collision
+    of the NMT hash among the inputs hashed by the DAH computation and by this verification -/
+theorem shareproof_core_violation_yields_collision [DecidableEq D] (H : HashFns D) (h : Lumina.Model.Nmt.HashFn)
+    (hinj : InnerInj H) (hleaf : LeafInj H) (hl : Lumina.Proofs.Nmt.HashLen h)
+    (e : Lumina.Model.Eds.Eds) (k : Nat) (hsq : Lumina.Proofs.NsData.SquareShape e) (hw : e.width = 2 ^ k)
+    (dah : Lumina.Model.Eds.Dah) (hd : Lumina.Model.Eds.Dah.ofEds h e = .ok dah)
+    (sp : Lumina.Model.ShareProof.ShareProof D) (rt : Option D) (hb : ∀ p ∈ sp.rowProof.proofs, p.total ≤ 2 ^ 63)
+    (hns : sp.namespaceId.length = 29) (hwf : ∀ p ∈ sp.shareProofs, ∀ x ∈ p.siblings, x.WF)
+    (hr90 : ∀ r ∈ sp.rowProof.rowRoots, r.length = 90) (hu32 : ∀ p ∈ sp.shareProofs, Lumina.Proofs.Decoders.U32 p)
+    (hbad : specShareVerifyCore H e.width (Lumina.Proofs.Sample.rawSquare e) dah.allRootsBytes (shareObsOf sp) rt
+      (shareResOf (Lumina.Model.ShareProof.verify H h sp rt)) = false) :
+    ∃ x y, x ∈ Lumina.Proofs.NmtMulti.shareVerifyInputs h e sp.namespaceId sp.data sp.shareProofs ∧
+      y ∈ Lumina.Proofs.NmtMulti.shareVerifyInputs h e sp.namespaceId sp.data sp.shareProofs ∧ x ≠ y ∧ h x = h y := by
+  rcases shareproof_verify_sound_or_collision_partial H h hinj hleaf hl e k hsq hw dah hd sp rt hb hns hwf hr90 hu32
+    with ht | hc
+  · rw [hbad] at ht; cases ht
+  · exact hc
 
 /-- The full share-proof rule of `Spec/C13.lean` (`specShareVerify` = `specShareVerifyCore` ∧ the inner-node clause
     `siblingsBound`: each in-width group's NMT siblings together with its shares recompute the proven row root).
@@ -546,31 +573,61 @@ example :
       Lumina.Model.RowProof.verify termFns rp (some (.inner (.leaf [7]) (.leaf [8]))) = .ok := by
   decide
 
-/-! ### non-vacuity of `shareproof_verify_sound` (concrete 2×2 square of 512-byte shares and toy 32-byte NMT hash from
-    `Props/C04`; free term algebra for the DAH tree) -/
+/-! ### non-vacuity of `shareproof_verify_sound_partial` — ALL hypotheses, including the hash hypothesis
 
-open Lumina.Props.C04 (toyH32 okEds okDah nonvacuity_okEds_valid nonvacuity_toyH32_len) in
+Concrete 2×2 square of 512-byte shares (`Props/C04`), toy 32-byte NMT hash `NmtMulti.toyH` (polynomial hash), free term
+algebra for the DAH tree.  The toy hash is collision-free on the 20-odd inputs of `shareVerifyInputs` (checked by kernel
+evaluation), so `HashOKOn` holds; the model accepts the honest proof; the main theorem applies and says something. -/
+
+open Lumina.Props.C04 (okEds nonvacuity_okEds_valid) in
+open Lumina.Proofs.NmtMulti (toyH) in
+/-- the DAH of the concrete square under the toy hash -/
+def okDahT : Lumina.Model.Eds.Dah :=
+  match Lumina.Model.Eds.Dah.ofEds toyH okEds with
+  | .ok d => d
+  | .error _ => default
+
+open Lumina.Props.C04 (okEds nonvacuity_okEds_valid) in
+open Lumina.Proofs.NmtMulti (toyH) in
 /-- the honest share proof for share (0,0) of the concrete square, built by the model of the honest construction -/
 def okShareProof : Lumina.Model.ShareProof.ShareProof Term :=
-  match Lumina.Model.ShareProof.build termFns toyH32 okEds okDah (List.replicate 29 0) 0 [(0, 1)] with
+  match Lumina.Model.ShareProof.build termFns toyH okEds okDahT (List.replicate 29 0) 0 [(0, 1)] with
   | .ok sp => sp
   | _ => ⟨[], [], [], ⟨[], [], 0, 0⟩⟩
 
-open Lumina.Props.C04 (toyH32 okEds okDah nonvacuity_okEds_valid nonvacuity_toyH32_len) in
-/-- all hypotheses of `shareproof_verify_sound` other than the idealised NMT hash (`HashOK`; see the `_or_collision`
-    form) are met by a concrete square and a concrete share proof that the model accepts -/
-example : Lumina.Proofs.NsData.SquareShape okEds ∧ okEds.width = 2 ^ 1 ∧
-    Lumina.Model.Eds.Dah.ofEds toyH32 okEds = .ok okDah ∧ Lumina.Proofs.Nmt.HashLen toyH32 ∧
-    InnerInj termFns ∧ LeafInj termFns ∧
-    okShareProof.data.length = 1 ∧ okShareProof.namespaceId.length = 29 ∧
-    (∀ p ∈ okShareProof.shareProofs, ∀ x ∈ p.siblings, x.WF) ∧
-    (∀ p ∈ okShareProof.rowProof.proofs, p.total ≤ 2 ^ 63) ∧
-    Lumina.Model.ShareProof.verify termFns toyH32 okShareProof
-      (some (Lumina.Model.RowProof.dahHash termFns (okDah.rowRoots.map Lumina.Model.Nmt.NsHash.toBytes)
-        (okDah.colRoots.map Lumina.Model.Nmt.NsHash.toBytes))) = .ok := by
-  refine ⟨⟨nonvacuity_okEds_valid.flags, fun sh hm => by rw [nonvacuity_okEds_valid.size sh hm]; decide⟩, rfl, rfl,
-    nonvacuity_toyH32_len, termFns_innerInj, termFns_leafInj, ?_⟩
-  decide +kernel
+/-- the data root the concrete proof is verified against -/
+def okDataRoot : Term :=
+  Lumina.Model.RowProof.dahHash termFns (okDahT.rowRoots.map Lumina.Model.Nmt.NsHash.toBytes)
+    (okDahT.colRoots.map Lumina.Model.Nmt.NsHash.toBytes)
+
+open Lumina.Props.C04 (okEds nonvacuity_okEds_valid) in
+open Lumina.Proofs.NmtMulti (toyH toyH_len hashOKOn_of_list shareVerifyInputs) in
+set_option maxRecDepth 100000 in
+/-- every hypothesis of `shareproof_verify_sound_partial` is met — in particular the toy hash has no collision among
+    the inputs `shareVerifyInputs` — the model ACCEPTS the proof, and the theorem, applied, yields the core rule for an
+    accepted proof (its shares are the claimed range of the proven row) -/
+example :
+    Lumina.Model.ShareProof.verify termFns toyH okShareProof (some okDataRoot) = .ok ∧
+    specShareVerifyCore termFns okEds.width (Lumina.Proofs.Sample.rawSquare okEds) okDahT.allRootsBytes
+      (shareObsOf okShareProof) (some okDataRoot) .ok = true := by
+  have hdah : Lumina.Model.Eds.Dah.ofEds toyH okEds = .ok okDahT := by
+    have h : (match Lumina.Model.Eds.Dah.ofEds toyH okEds with | .ok _ => true | .error _ => false) = true := by
+      decide +kernel
+    unfold okDahT
+    cases hd : Lumina.Model.Eds.Dah.ofEds toyH okEds with
+    | ok d => rfl
+    | error e => rw [hd] at h; cases h
+  have hshape : Lumina.Proofs.NsData.SquareShape okEds :=
+    ⟨nonvacuity_okEds_valid.flags, fun sh hm => by rw [nonvacuity_okEds_valid.size sh hm]; decide⟩
+  have hok : Lumina.Proofs.Nmt.HashOKOn toyH
+      (fun y => y ∈ shareVerifyInputs toyH okEds okShareProof.namespaceId okShareProof.data okShareProof.shareProofs) :=
+    hashOKOn_of_list toyH_len (by decide +kernel)
+  have hacc : Lumina.Model.ShareProof.verify termFns toyH okShareProof (some okDataRoot) = .ok := by decide +kernel
+  have hmain := shareproof_verify_sound_partial termFns toyH termFns_innerInj termFns_leafInj okEds 1 hshape rfl
+    okDahT hdah okShareProof (some okDataRoot) hok (by decide +kernel) (by decide +kernel) (by decide +kernel)
+    (by decide +kernel) (by unfold Lumina.Proofs.Decoders.U32; decide +kernel)
+  rw [hacc] at hmain
+  exact ⟨hacc, hmain⟩
 
 open Lumina.Props.C04 (toyH32 okEds okDah nonvacuity_okEds_valid nonvacuity_toyH32_len) in
 /-- the hypotheses of `shareproof_build_complete` are met by the concrete square, row 0, range 0..1 of the all-zero
